@@ -34,6 +34,12 @@ type C17Case struct {
 	// RemoteStart: the application is started by another node (RemoteNode.ApplicationStart*) over the
 	// simulated network; everything else is judged as for a local start
 	RemoteStart bool `json:"remote_start,omitempty"`
+	// Dep0Running (with WithDep): the main application has a further dependency "dep0", listed first,
+	// that is already running when the main application is started
+	Dep0Running bool `json:"dep0_running,omitempty"`
+	// TrapMember (>= 0): that member of the main application traps exit signals (it keeps handling
+	// them as messages and ignores them); the shutdown sent by the application must still end it
+	TrapMember int `json:"trap_member"`
 }
 
 type c17 struct{}
@@ -59,7 +65,11 @@ func (c17) Components() ([]string, []string) {
 }
 
 func (c17) Generate(r *simkit.Rand, tier string) any {
-	c := &C17Case{Members: r.Range(1, 4), SpecMode: simkit.Pick(r, "temporary", "transient", "permanent"), WithDep: r.Chance(0.3), RemoteStart: r.Chance(0.25)}
+	c := &C17Case{Members: r.Range(1, 4), SpecMode: simkit.Pick(r, "temporary", "transient", "permanent"), WithDep: r.Chance(0.3), RemoteStart: r.Chance(0.25), TrapMember: -1}
+	c.Dep0Running = c.WithDep && r.Bool()
+	if r.Chance(0.3) {
+		c.TrapMember = r.Intn(c.Members)
+	}
 	nr := r.Range(1, 3)
 	for i := 0; i < nr; i++ {
 		rd := C17Round{Mode: simkit.Pick(r, "spec", "temporary", "transient", "permanent"), FailAt: -1, DieAtOnce: -1}
@@ -199,7 +209,7 @@ func (c17) Run(e *simkit.Env, cc any) {
 	round := 0
 	failAt, dieAtOnce := -1, -1
 	memberFactory := func(app string, idx int) gen.ProcessFactory {
-		h := &Hooks{Name: fmt.Sprintf("%s-m%d", app, idx), Env: e}
+		h := &Hooks{Name: fmt.Sprintf("%s-m%d", app, idx), Env: e, Trap: app == "main" && idx == c.TrapMember}
 		h.Init = func(p *Probe, args ...any) error {
 			if app == "main" && idx == failAt {
 				return fmt.Errorf("init-fails")
@@ -259,6 +269,21 @@ func (c17) Run(e *simkit.Env, cc any) {
 		if _, err := n.ApplicationLoad(depApp); err != nil {
 			e.Fail("C17/unexpected-failure", "ApplicationLoad(dep): %v", err)
 			return
+		}
+		if c.Dep0Running {
+			dep0 := &c17App{name: "dep0"}
+			dep0.spec = gen.ApplicationSpec{Name: "dep0", Mode: gen.ApplicationModeTemporary,
+				Group: []gen.ApplicationMemberSpec{{Name: "dep0_m0", Factory: memberFactory("dep0", 0)}}}
+			mainApp.spec.Depends.Applications = []gen.Atom{"dep0", "dep"}
+			if _, err := n.ApplicationLoad(dep0); err != nil {
+				e.Fail("C17/unexpected-failure", "ApplicationLoad(dep0): %v", err)
+				return
+			}
+			if err := n.ApplicationStart("dep0", gen.ApplicationOptions{}); err != nil {
+				e.Fail("C17/unexpected-failure", "ApplicationStart(dep0): %v", err)
+				return
+			}
+			e.Probe("a-dependency-already-running")
 		}
 	}
 	if _, err := n.ApplicationLoad(mainApp); err != nil {
